@@ -1,6 +1,6 @@
 PID = "C08"
 WORKER = "w_c08"
-HEADER = "From Coq Require Import List ZArith QArith Qcanon.\nFrom Dimod Require Import Base.Util Model.Poly Model.Feas Model.ChkC08.\nImport ListNotations."
+HEADER = "From Coq Require Import List ZArith QArith Qcanon.\nFrom Dimod Require Import Base.Util Model.Poly Model.Samples Model.Feas Model.EnergyCy Model.FeasCy Model.ChkC08.\nImport ListNotations."
 CHECK_FN = "check"
 N_QUICK = 960
 N_THOROUGH = 16000
